@@ -8,7 +8,7 @@ git checkout -q -- . ; git clean -fdq crates
 demo=$(ls out/$n/*.rs | head -1); name=$(basename "$demo" .rs)
 git apply out/$n/patch.diff || { echo "RESULT $wt $n: patch does not apply"; exit 1; }
 suite=$(cargo test --workspace --no-fail-fast --offline 2>&1 | grep -E "^test result" | awk '{p+=$4; f+=$6} END {print p" passed "f" failed"}')
-cp "$demo" crates/$crate/tests/$name.rs
+mkdir -p crates/$crate/tests; cp "$demo" crates/$crate/tests/$name.rs
 cargo test --offline -p essential-$crate --test $name >/tmp/demo_with_$$.log 2>&1; with=$?
 git checkout -q -- . 
 cargo test --offline -p essential-$crate --test $name >/tmp/demo_without_$$.log 2>&1; without=$?
